@@ -139,8 +139,19 @@ func c13SearchM(W, L, Q, fixedMode int) {
 		rt.Check(len(ana.currPath) == 0, "AnagramSearcher path not empty after search")
 		rt.Check(ana.blanks == blanks0, "AnagramSearcher blanks not restored")
 		rt.Check(len(ana.counts) == len(counts0), "AnagramSearcher counts changed shape")
+		// the remaining letters are restored as a multiset: one letter may be spread over several
+		// entries (NewAnagramSearcher does not always merge equal letters) and Backstep gives a
+		// letter back to the first entry for it, which is behaviourally the same state
 		for k := range counts0 {
-			rt.Check(ana.counts[k].letter == counts0[k].letter && ana.counts[k].count == counts0[k].count, "AnagramSearcher counts not restored")
+			before, after := 0, 0
+			for q := range counts0 {
+				before += rt.IteInt(counts0[q].letter == counts0[k].letter, counts0[q].count, 0)
+			}
+			for q := range ana.counts {
+				after += rt.IteInt(ana.counts[q].letter == counts0[k].letter, ana.counts[q].count, 0)
+			}
+			rt.Check(before == after, "AnagramSearcher letter counts not restored")
+			rt.Check(ana.counts[k].letter == counts0[k].letter, "AnagramSearcher letters changed")
 		}
 	}
 	// the Dawg is unchanged
